@@ -890,7 +890,7 @@ class LP:
     """Laurent polynomial with rational coefficients over named symbols: dict {((sym, exp), ...): coef}"""
 
     def __init__(self, terms=None):
-        self.t = {k: v for k, v in (terms or {}).items() if v != 0}
+        self.t = {k: v for k, v in (terms or {}).items() if v}
 
     @staticmethod
     def const(c):
@@ -914,13 +914,23 @@ class LP:
 
     def __mul__(self, o):
         out: dict = {}
+        get = out.get
         for k1, v1 in self.t.items():
             for k2, v2 in o.t.items():
-                d = dict(k1)
-                for s_, e_ in k2:
-                    d[s_] = d.get(s_, 0) + e_
-                k = tuple(sorted((s_, e_) for s_, e_ in d.items() if e_ != 0))
-                out[k] = out.get(k, 0) + v1 * v2
+                if not k1:
+                    k = k2
+                elif not k2:
+                    k = k1
+                else:
+                    d = dict(k1)
+                    cancel = False
+                    for s_, e_ in k2:
+                        if s_ in d:
+                            e_ = d[s_] + e_
+                            cancel = cancel or not e_
+                        d[s_] = e_
+                    k = tuple(sorted((x_ for x_ in d.items() if x_[1]) if cancel else d.items()))
+                out[k] = get(k, 0) + v1 * v2
         return LP(out)
 
     def inverse(self):
